@@ -20,7 +20,9 @@
    * Edge::weight() is the constant 1 in the code; the model uses 1.
    * C++ [int] counters that the code decrements are [nat] here; a decrement of 0 is [Forbidden]
      (never silently truncated).  Violated [assert]s are [Forbidden] too.
-   * dyndep (Plan::DyndepsLoaded), StartEdge/FinishCommand I/O failures are out of scope. *)
+   * dyndep (Plan::DyndepsLoaded), StartEdge/FinishCommand I/O failures are out of scope.
+   * The tree modelled is the one WITH the commit "fix: mark initially pool-delayed edges as scheduled
+     in Plan::ScheduleInitialEdges" (see [sched_init_edge]). *)
 From NinjaV Require Import Base.Bytes.
 
 (* ------------------------------------------------------------------ static data *)
